@@ -269,11 +269,12 @@ func lawStreams(g *hc.Gen, pr *hc.Proc, o *hc.Out, n int) {
 		if ta == nil || tb == nil {
 			continue
 		}
-		if i == 1 { // an empty left table
-			for _, t := range x.tables {
-				if len(t.rows) == 0 {
-					ta = t
-				}
+		if i%4 == 1 { // an empty left table
+			epoch++
+			te := &table{name: fmt.Sprintf("t%d_e", epoch), cols: ta.cols}
+			if err := pr.DeclareTable(te.name, te.cols, te.rows); err == nil {
+				ta = te
+				defer pr.DisposeTable(te.name)
 			}
 		}
 		a, b := leafOf(x, ta), leafOf(x, tb)
